@@ -132,7 +132,11 @@ const SITES: &[(&str, &str, &str, Cls, usize)] = &[
 /// Narrow-integer arithmetic cannot be found by a grep for cast idioms; these lines are
 /// checked for presence so that the table notices when they change.
 const ARITH_SITES: &[(&str, &str, &str)] = &[
-    // none left in the scanned files: the top side bearing is now computed in i32 and checked
+    // no narrow arithmetic left in the scanned files (the top side bearing is computed in i32 and
+    // checked); these are the lines that make the glyf step check one walk over ALL points of a
+    // glyph with a single running previous point (contour seams included)
+    ("fontbe/src/glyphs.rs", "let(mutlast_x,mutlast_y)=(0_i32,0_i32);", "glyphs.rs:check_point_deltas_fit_i16.start(one previous point per glyph)"),
+    ("fontbe/src/glyphs.rs", "forpointinglyph.contours.iter().flat_map(|c|c.iter()){", "glyphs.rs:check_point_deltas_fit_i16.walk(flat over contours)"),
 ];
 
 const SCANNED: &[&str] = &[
@@ -323,6 +327,14 @@ fn scan_sites(repo: &str) -> SiteScan {
     scan
 }
 
+/// the checkout this harness was built against: the path dependency `fontbe` of its Cargo.toml
+fn repo_of_this_build() -> Option<String> {
+    let toml = std::fs::read_to_string(concat!(env!("CARGO_MANIFEST_DIR"), "/Cargo.toml")).ok()?;
+    let line = toml.lines().find(|l| l.trim_start().starts_with("fontbe"))?;
+    let path = line.split('"').nth(1)?;
+    Some(path.trim_end_matches('/').trim_end_matches("fontbe").trim_end_matches('/').to_string())
+}
+
 fn emit_violation_nf(key: &str, desc: String, extra: Value) {
     let mut v = json!({"type":"violation","key":key,"desc":desc,"found_input":false});
     if let Value::Object(m) = extra {
@@ -405,6 +417,7 @@ fn gen_cases(seed: u64, n: usize, tier: &str) -> Vec<Case> {
     push("comptotal", 700.0, 0.0, 100, "boundary", &mut v);
     push("tsb", -32000.0, 800.0, 0, "boundary", &mut v);
     push("diff", -20000.0, 20000.0, 0, "boundary", &mut v);
+    push("seam", -20000.0, 20000.0, 0, "boundary", &mut v);
     // ---- every edge value for every field
     for &x in U16_EDGE {
         push("adv", x, 0.0, 0, "boundary", &mut v);
@@ -425,6 +438,18 @@ fn gen_cases(seed: u64, n: usize, tier: &str) -> Vec<Case> {
     for (lo, hi) in [(-16383.0, 16384.0), (-16384.0, 16384.0), (-16384.0, 16385.0), (-20000.0, 20000.0), (-32768.0, 32767.0), (-32768.0, 0.0), (-32767.0, 0.0), (-1.0, 32767.0), (-32768.0, -1.0)] {
         push("diff", lo, hi, 0, "boundary", &mut v);
         push("diff", lo, hi, 1, "boundary", &mut v);
+    }
+    // the step across a contour seam: x axis, emitted order ends contour 1 at (a + 100, 0) and starts
+    // contour 2 at (b, 0), so the seam step is b - a - 100; y axis: (100, a) -> (0, b), step b - a
+    for (a, b) in [(-15000.0, 15000.0), (-16384.0, 16483.0), (-16384.0, 16484.0), (-20000.0, 20000.0), (-32768.0, 32667.0),
+                   (15000.0, -15000.0), (16284.0, -16384.0), (16285.0, -16384.0), (20000.0, -20000.0), (32667.0, -32768.0)] {
+        push("seam", a, b, 0, "boundary", &mut v);
+        push("seam", a, b, 2, "boundary", &mut v);
+    }
+    for (a, b) in [(-15000.0, 15000.0), (-16384.0, 16383.0), (-16384.0, 16384.0), (-20000.0, 20000.0), (-32768.0, 32667.0),
+                   (15000.0, -15000.0), (16384.0, -16384.0), (16385.0, -16384.0), (20000.0, -20000.0), (32667.0, -32768.0)] {
+        push("seam", a, b, 1, "boundary", &mut v);
+        push("seam", a, b, 3, "boundary", &mut v);
     }
     // component 2x2 entries around +-2
     let q14 = 1.0 / 16384.0;
@@ -482,7 +507,16 @@ fn gen_cases(seed: u64, n: usize, tier: &str) -> Vec<Case> {
     }
     // ---- seeded draws
     for _ in 0..n {
-        match rng.below(12) {
+        match rng.below(13) {
+            12 => {
+                // two boxes whose coordinates fit; the seam step may not
+                let a = quarter(&mut rng, -32768, 32667);
+                let b = if rng.chance(1, 2) { (a + if a < 0.0 { 32767.0 } else { -32768.0 } + quarter(&mut rng, -102, 102)).clamp(-32768.0, 32667.0) } else { quarter(&mut rng, -32768, 32667) };
+                let n = rng.below(4);
+                let step = if n & 1 == 0 { b - a - 100.0 } else { b - a };
+                let d = if (-32768.0..=32767.0).contains(&step.round()) { "inrange" } else { "far" };
+                push("seam", a, b, n, d, &mut v);
+            }
             0 => {
                 let (x, d) = draw_u16(&mut rng);
                 push("adv", x, 0.0, 0, d, &mut v);
@@ -597,6 +631,18 @@ fn coord_contours(c: &Case) -> Vec<Vec<(f64, f64)>> {
             let lo = (c.a - 100.0).max(-32768.0);
             vec![vec![(0.0, lo), (100.0, lo), (100.0, c.a), (0.0, c.a)]]
         }
+        "seam" => {
+            // two (n & 2: three) 100-unit boxes, the first at c.a, the second at c.b along the
+            // axis n & 1 (the third at the origin): every coordinate and every step inside a
+            // contour is small or fits, the step from the last point of one contour to the first
+            // point of the next (which glyf stores as a delta like any other) may not
+            let boxat = |o: f64| if c.n & 1 == 0 { vec![(o, 0.0), (o + 100.0, 0.0), (o + 100.0, 100.0), (o, 100.0)] } else { vec![(0.0, o), (100.0, o), (100.0, o + 100.0), (0.0, o + 100.0)] };
+            let mut cs = vec![boxat(c.a), boxat(c.b)];
+            if c.n & 2 != 0 {
+                cs.push(boxat(0.0));
+            }
+            cs
+        }
         _ => unreachable!(),
     }
 }
@@ -666,7 +712,7 @@ fn build_source(c: &Case) -> Option<Source> {
             b.contours.push(rect(0.0, 0.0, 100.0, 100.0));
             single(vec![a, b], &["a", "b"])
         }
-        "coord" | "diff" => {
+        "coord" | "diff" | "seam" => {
             let mut a = GlyphSrc::new("a", 600.0).uni(0x61);
             a.contours = to_contours(&coord_contours(c));
             single(vec![a], &["a"])
@@ -1199,7 +1245,7 @@ fn fields_of(c: &Case, bytes: &[u8]) -> Option<Vec<i64>> {
             out.push(f.hea(b"hhea", 14, true)?);
             out.push(f.hea(b"hhea", 16, true)?);
         }
-        "coord" | "diff" => {
+        "coord" | "diff" | "seam" => {
             dump_body(&f.glyph(1)?, &mut out);
             out.extend(f.head_bbox()?.iter());
         }
@@ -1468,7 +1514,7 @@ fn expect(c: &Case) -> Expect {
             let r = otr(c.a);
             ex(fitsu16(r).then(|| vec![r, r.max(1000)]))
         }
-        "coord" | "diff" => ex(faithful_simple(&coord_contours(c)).map(|mut d| {
+        "coord" | "diff" | "seam" => ex(faithful_simple(&coord_contours(c)).map(|mut d| {
             let bb = body_bbox_from_dump(&d).unwrap();
             d.extend(union(NOTDEF_BBOX, bb));
             d
@@ -1578,6 +1624,7 @@ fn describe(c: &Case) -> String {
             if c.kind == "tsb" { format!(" with openTypeVheaVertTypo* set and openTypeOS2TypoAscender {}", c.b) } else { String::new() },
             coord_contours(c)[0]
         ),
+        "seam" => format!("single UFO: glyph a = {} closed contours of line points, in this order: {:?}", coord_contours(c).len(), coord_contours(c)),
         "compoff" | "compbbox" => format!("single UFO: ap = square 0..100, an = square -100..0, glyph c = one component of {} with {}Offset={}", if (c.a >= 0.0) == (c.kind == "compoff") { "an" } else { "ap" }, if c.n == 0 { "x" } else { "y" }, c.a),
         "scale" => format!("single UFO: ap = square 0..100, glyph c = component of ap with {}={} plus component of ap at xOffset 300", ["xScale", "xyScale", "yxScale", "yScale"][c.n as usize], c.a),
         "flatscale" => format!("single UFO, --flatten-components: ap = square 0..100; b = ap scaled {} + ap at x 300; c = b scaled {} + ap at y 300", c.b, c.a),
@@ -1604,6 +1651,7 @@ fn keys(kind: &str) -> (&'static str, &'static str, &'static str) {
         "adv" => ("metrics_and_limits.rs:hmtx.advance:saturates", "metrics_and_limits.rs:hmtx.advance:profiles-differ", "advance width (fontbe/src/metrics_and_limits.rs: width.ot_round() -> u16)"),
         "vadv" => ("ir.rs:GlyphInstance.height:saturates", "ir.rs:GlyphInstance.height:profiles-differ", "advance height (fontir/src/ir.rs GlyphInstance::height: ot_round() -> u16)"),
         "coord" => ("glyphs.rs:glyf.coordinate:saturates", "glyphs.rs:glyf.coordinate_delta:i16-overflow", "outline coordinate (write-fonts CurvePoint::from via fontbe/src/glyphs.rs: ot_round() -> i16)"),
+        "seam" => ("glyphs.rs:glyf.coordinate:saturates", "glyphs.rs:glyf.coordinate_delta:i16-overflow", "step from the last point of a contour to the first point of the next (fontbe/src/glyphs.rs check_point_deltas_fit_i16; write-fonts SimpleGlyph::compute_point_deltas: i16 `-`)"),
         "diff" => ("glyphs.rs:glyf.coordinate:saturates", "glyphs.rs:glyf.coordinate_delta:i16-overflow", "difference of successive outline coordinates (write-fonts SimpleGlyph::compute_point_deltas via fontbe/src/glyphs.rs: i16 `-`)"),
         "compoff" => ("glyphs.rs:component.offset:saturates", "glyphs.rs:component.offset:profiles-differ", "component offset (fontbe/src/glyphs.rs create_component_ref_gid: e.ot_round() -> i16)"),
         "compbbox" => ("glyphs.rs:composite.bbox:saturates", "glyphs.rs:composite.bbox:profiles-differ", "composite bounding box (fontbe/src/glyphs.rs compute_composite_bboxes: Rect -> Bbox, ot_round() -> i16)"),
@@ -1713,7 +1761,7 @@ fn coq_case(c: &Case, dbg: &Obs, rel: &Obs) -> Option<String> {
     match c.kind {
         "adv" => via_build("fun f => [fst (nth 1 (f_hmtx f) (0, 0)); f_adv_max f; f_min_lsb f; f_min_rsb f; f_max_extent f]", None, dflt),
         "vadv" => via_build("fun f => match f_vmtx f with Some v => [fst (nth 1 v (0, 0)); zmax0 (map fst v)] | None => [] end", Some(800.0), dflt),
-        "coord" | "diff" => via_build("fun f => dump_glyf (nth 1 (f_glyf f) GEmpty) ++ bbox_list (f_head f)", None, dflt),
+        "coord" | "diff" | "seam" => via_build("fun f => dump_glyf (nth 1 (f_glyf f) GEmpty) ++ bbox_list (f_head f)", None, dflt),
         "compoff" | "compbbox" => via_build("fun f => dump_glyf (nth 3 (f_glyf f) GEmpty) ++ bbox_list (f_head f)", None, dflt),
         "scale" => via_build("fun f => dump_glyf (nth 2 (f_glyf f) GEmpty)", None, dflt),
         "kern" => via_build("fun f => f_kern f", None, dflt),
@@ -1824,7 +1872,7 @@ fn main() {
     }
 
     // ---- 1. site table against the working tree
-    let repo = std::env::var("VERIF_REPO").unwrap_or_else(|_| "/repo".into());
+    let repo = std::env::var("VERIF_REPO").ok().or_else(repo_of_this_build).unwrap_or_else(|| "/repo".into());
     let scan = scan_sites(&repo);
 
     // ---- 2. both profiles
